@@ -313,7 +313,7 @@ def tumble_replay(c, fail):
 def run(ctx):
     rng = ctx.rng
     ctx.check_theorems()
-    ctx.check_generated(['qfm', 'vmatch', 'vidx', 'vfit', 'fm', 'fmtumble'])
+    ctx.check_generated(['qfm', 'vmatch', 'vidx', 'vfit', 'fm', 'fmtumble', 'vdefaults', 'fmpair'])
     # (K) the per-pair search (_match_all + _tumble) in exact rationals vs the implementation; (S) the clauses on what it returns
     tcases = [gen_tumble(rng) for _ in range(ctx.n(24, 240))]
     tvals = ctx.coq_eval('tumble', 'Model.Lattice Model.WLS Model.Match Model.Tumble', [tumble_expr(c) for c in tcases], shard=4, timeout=1500)
